@@ -30,6 +30,23 @@ only where model and gcc agree:
               tag binding (sizeof where complete), the tag identity (pointer-to-incomplete compatibility via _Generic with
               the pointers declared next to every struct/union declaration) and objects of the type (last byte survives an
               assignment); oracle = innermost visible declaration model == gcc twin.
+              POINT OF DECLARATION (point family, C11 6.2.1p7): besides the probes AFTER declarations, probes INSIDE a
+              declaration - the exact point at which each kind of declaration enters scope.  Self-referential declaration
+              kinds at every level of the chain where C allows them, over every assignment of enclosing declarations of x:
+                array bound in the declarator (object, typedef, parameter `char (*x)[REF + 1]`) ...... sees the enclosing x
+                initializer (`char x[N] = { sizeof(x) }`, also with the bound, also in for-init, file scope) sees the new x
+                enumerator value (`enum { x = REF + 1 }`, in blocks, parameter lists, type names in controlling
+                  expressions and bodies) and every earlier enumerator of the list ........................ sees the enclosing x
+                a later enumerator of the same list (`enum { a = REF + 1, x = REF + 2, b = x + 3 }`) ...... sees the new x
+                a later parameter (`short x, char (*r)[sizeof(x) + 1]`; prototype scope: `__typeof__(x) *r`
+                  observed through _Generic on the function type) ........................................ sees the parameter
+                a member declaration mentioning its own tag (`struct x { struct x *n; .. }`, struct and union, at file /
+                  parameter / block / inner-block level and in type names) ............................... sees the NEW type
+              REF = sizeof(x) / sizeof(*x) / x according to what the enclosing x is.  The observable of such a
+              declaration (sizeof x, x[0], enumerator values, sizeof *r, sizeof *q->n, _Generic(q->n, struct x *)) depends on
+              what its inside references bound to and is read at every probe site where x denotes that declaration;
+              model = the three rules of 6.2.1p7 == gcc twin.  Bounds: quick at most 3 declarations per case (one name
+              space, or a self-referential declaration in each), thorough 5 (4 with both name spaces).
 """
 import os, re, itertools
 from vlib import core, twin
@@ -721,6 +738,9 @@ def scope_sig(c, st):
     if got == "signal":
         return "C03|scope|%s|signal" % c.cid()
     site, slot = k // scope.NSLOT, k % scope.NSLOT
+    pd = c.point_deviation(site, slot, want, got)
+    if pd:          # the wrong value is explained by a reference INSIDE the declaration that x (correctly) denotes at the site
+        return "C03|scope|point-of-declaration|%s" % pd
     where = c.site_name(site) + ("+goto" if mode and c.family == "chain" else "")
     if c.family == "stmt":
         where = c.kw + ":" + where
@@ -820,6 +840,8 @@ def run_scope(ctx):
             ctx.violation(sig, desc, files={"unit.c": twin.PRELUDE + u, "table.bin": files["table.bin"]}, replay=rp)
     ctx.cover(scope_cases=done, scope_runs=tot["evals"], scope_judged=tot["judged"], scope_nontrivial=tot["nontrivial"], scope_failing_cases=len(failing),
               scope_chain_cases=sum(1 for c in SC_CASES if c.family == "chain"), scope_stmt_cases=sum(1 for c in SC_CASES if c.family == "stmt"),
+              scope_point_cases=sum(1 for c in SC_CASES if c.family == "point"),
+              scope_stmt_selfref_cases=sum(1 for c in SC_CASES if c.family == "stmt" and c.selfref()),
               scope_failing_unshrunk=max(0, len(failing) - CAP),
               scope_bounds="chain file>parameter>block>for-init>for-body: ordinary x in none/object/typedef/enumerator, tag x in none/struct/union/enum/"
                            "sfwd/ufwd (`struct x;` incomplete, never completed)/sfwdc/ufwdc (completed later at the same level) per level "
@@ -831,7 +853,18 @@ def run_scope(ctx):
                            "scope with declarations in the parameter list, x file scope x function body, at most "
                            + ("3" if ctx.tier == "quick" else "5") + " declarations; probes before / in condition / in body / in else or increment / after.  "
                            "4 observables per site: ordinary binding, tag sizeof (+ sizeof *q), tag identity (_Generic over the pointers declared next "
-                           "to each struct/union declaration), object copy")
+                           "to each struct/union declaration), object copy.  point (point of declaration, 6.2.1p7): the chain with self-referential "
+                           "declaration kinds = probes INSIDE the declaration: objb `char x[REF+1]` / typedefb / pself `char (*x)[REF+1]` (declarator sees the "
+                           "enclosing x), obji / sobji (block-scope static) / objbi `= { sizeof(x) }` (initializer sees the new x), enumrv `enum { x = REF+1 }`, enumr3 "
+                           "`enum { a = REF+1, x = REF+2, b = x+3 }` (own value expression: enclosing x; later enumerator: new x), pnext `short x, "
+                           "char (*r)[sizeof(x)+1]` (later parameter sees the earlier), structm / unionm `struct x { struct x *n; .. }` (member sees the new "
+                           "type), each at every level where C allows it (file: obji, tags; parameter list: pself, pnext, enumrv, enumr3, tags; block and "
+                           "inner block: all; for-init: objb, obji, objbi) over every assignment of enclosing declarations, at most "
+                           + ("3 declarations" if ctx.tier == "quick" else "5 declarations (4 when both name spaces are used)") +
+                           "; stmt family: enumrv / enumr3 / structm / unionm in type names of controlling expressions, non-compound bodies and "
+                           "prototype parameter lists, tnext `short x, __typeof__(x) *r` in prototype scope")
+    if ctx.exhaustive and not any(c.family == "point" and "enumrv" in c.ordt for c in SC_CASES):
+        raise core.HarnessError("scope: the point-of-declaration dimension is empty")
     if ctx.exhaustive and tot["judged"] < done - len(failing):
         raise core.HarnessError("scope: vacuous (%d cases, %d judged runs)" % (done, tot["judged"]))
     ctx.sample({"scope_case": SC_CASES[len(SC_CASES) // 2].cid(), "source": SC_CASES[len(SC_CASES) // 2].source(0)}, limit=16)
